@@ -200,7 +200,7 @@ class SyncedList(SyncedCollection, MutableSequence):
                 return
             # Update and save under the lock: otherwise a concurrent mutator can load
             # between the two steps and the reset is lost (or partially applied).
-            with self._thread_lock:
+            with self._mutation_lock:
                 self._update(data)
                 self._save()
         else:
@@ -271,7 +271,7 @@ class SyncedList(SyncedCollection, MutableSequence):
             return
         # Clear in place: buffered collections may share the container with the
         # buffer, and rebinding the attribute would silently disconnect them.
-        with self._thread_lock:
+        with self._mutation_lock:
             self._data.clear()
             self._save()
 
